@@ -159,6 +159,8 @@ def classify(c, r, target="sql.sqlite"):
             return "panic-todo-type-intersection-append"
         if "cannot find cid by id" in det:
             return "panic-cannot-find-cid"
+        if "Option::unwrap()" in det and "date.to_text" in prql:
+            return "panic-date-to-text-unwrap"
         return None
     if "append" in prql and st in ("sqlite-error", "rows-differ", "column-count"):
         if union_misaligned(sql) or (st == "sqlite-error" and "UNION ALL do not have the same number" in det):
